@@ -240,12 +240,10 @@ func checkC20(c *Ctx, r *Report) {
 				r2.Fail("updateState: non-constant state", instrPos(st), "cannot classify the state assigned", "")
 			}
 		}
-		r2.guard(us, "state = Blocked", blockedStores, "len(dialResults) >= N", edgeCmp(func(b *ssa.BinOp) bool {
-			return (b.Op == token.LSS || b.Op == token.LEQ) && lenOfField(b.X, "dialResults") && isLoadOfField(ctrT+".N")(strip2(b.Y))
-		}, false), nil)
-		r2.guard(us, "state = Blocked", blockedStores, "successes < MinSuccesses", edgeCmp(func(b *ssa.BinOp) bool {
-			return b.Op == token.GEQ && isLoadOfField(ctrT+".successes")(strip2(b.X)) && isLoadOfField(ctrT+".MinSuccesses")(strip2(b.Y))
-		}, false), nil)
+		r2.guard(us, "state = Blocked", blockedStores, "len(dialResults) >= N", edgeExcl(func(v ssa.Value) bool { return lenOfField(v, "dialResults") },
+			func(v ssa.Value) bool { return isLoadOfField(ctrT + ".N")(strip2(v)) }, ordLT), nil)
+		r2.guard(us, "state = Blocked", blockedStores, "successes < MinSuccesses", edgeExcl(func(v ssa.Value) bool { return isLoadOfField(ctrT + ".successes")(strip2(v)) },
+			func(v ssa.Value) bool { return isLoadOfField(ctrT + ".MinSuccesses")(strip2(v)) }, ordEQ, ordGT), nil)
 	}
 	resetK := "(*" + swarmP + ".BlackHoleSuccessCounter).reset"
 	if rr := r2.need("(*" + swarmP + ".BlackHoleSuccessCounter).RecordResult"); rr != nil {
